@@ -450,6 +450,7 @@ LISTED = {
                                           "geomDistance-differs-from-contact-dist", "contact-normal-does-not-realise-distance",
                                           "contact-pos-not-between-surfaces"),
     "box-box-separated:face-axis-preferred-within-5pct": ("contact-normal-does-not-realise-distance",),
+    "box-box-face-axis-separated-no-contact-at-any-margin": ("no-contact-although-distance-below-margin",),
     "ccd-coincident-centres": ("geomDistance-differs-from-true-distance", "geomDistance-differs-from-contact-dist"),
     "ccd-touching-within-tolerance": ("geomDistance-differs-from-contact-dist", "geomDistance-not-symmetric"),
 }
@@ -635,6 +636,20 @@ def build_mechanisms(P, S, A, B, obs, ref, distmax, mg, scale, ext, tolc, tolg, 
                 return okc() and okg()
             return okc()
         out.append(("box-box-separated-vertex-features", test))
+
+    # -- box-box separated, largest separating-axis gap == Euclidean distance (face features), yet mjc_BoxBox builds no manifold whatever
+    # the margin: findings/C13-box-box-face-separated-no-contact-at-any-margin.md.  Confirmed per pose: no contact, GJK (mj_geomDistance)
+    # sees the true distance, and the narrow-phase routine called directly with a margin of max(1, 20*(margin+gap)) still returns 0
+    if isbox and ref["dist"] > 0 and not con and ref.get("sat_sep", -math.inf) >= ref["dist"] - 1e-9 * scale:
+        def anymargin_():
+            import ctypes as C
+            f = S.L.lib.mjc_BoxBox
+            f.restype = C.c_int
+            f.argtypes = [C.c_void_p, C.c_void_p, C.c_void_p, C.c_int, C.c_int, C.c_double]
+            buf = (C.c_double * 4096)()
+            return f(S.m.ptr, S.d.ptr, buf, int(S.gid[0]), int(S.gid[1]), float(max(1.0, 20 * mg))) == 0 and abs(gdA - min(ref["dist"], distmax)) <= tolg
+        P.count("poses_box-box-face-axis-separated-no-contact")
+        out.append(("box-box-face-axis-separated-no-contact-at-any-margin", lambda chk: once("bb_anymargin", anymargin_)))
 
     # -- box-box separated inside the margin, face substitution: findings/C13-box-box-separated-vertex-features.md (second mechanism)
     if isbox and 0 < ref["dist"] < mg and con:
